@@ -11,12 +11,32 @@ import time
 
 import z3
 
-from .core import MAX_INT, W, Engine
+from .core import MAX_INT, W, Engine, concretize_structure, differs
 from .driver import (ByModel, Finding, HOLE_BASE, compare_vm_vm, concretize_source, fixed_int_literals, hole_ids, instantiate,
                      native_outcome, patterns_for, render)
 from .vmexec import Machine, Program, Unsafe
 
 SEP = "\x01"
+
+
+def declared_names(ast):
+    out = set()
+    for st in ast or []:
+        if st.get("s") == "let":
+            out.add(st["name"])
+        elif st.get("s") == "expr" and st["value"].get("e") == "func" and st["value"].get("name"):
+            out.add(st["value"]["name"])
+    return out
+
+
+def classify(finding, lines, i, failed_decl):
+    """role key of a session finding (known findings are keyed by role, not by session)"""
+    import re as _re
+    if "not a function entry of this code" in finding.detail:
+        finding.role = "session:function-value-of-earlier-line"
+    elif any(_re.search(r"\b%s\b" % _re.escape(n), lines[i]) for n in failed_decl):
+        finding.role = "session:declaration-of-line-failing-at-run-time"
+    return finding
 
 
 def check_session(checker, lines):
@@ -73,8 +93,23 @@ def check_session(checker, lines):
                 break
         return outs
 
+    witnesses = []
     for outs, ctx in eng.explore(run_session, checker.max_paths):
         st["vm_paths"] += 1
+        # one concrete witness per explored session path: the REAL retained session must do what the specification says
+        if isinstance(outs, list) and len(witnesses) < 6 and eng.check() == z3.sat:
+            mdl = eng.solver.model()
+            exp = []
+            for o in outs:
+                if o[0] == "ok":
+                    exp.append(("ok", concretize_structure(o[1], mdl), render(o[2], mdl)))
+                elif o[0] == "err":
+                    exp.append(("err", o[1], render(o[2], mdl)))
+                elif o[0] == "rejected":
+                    exp.append(("err", o[1], ""))
+                else:
+                    exp.append(None)
+            witnesses.append((model_lines(mdl), exp))
         if time.time() > checker.deadline:
             st["truncated"] += 1
             break
@@ -82,7 +117,12 @@ def check_session(checker, lines):
             st["undecided"] += 1
             continue
         ok_idx = []
+        failed_decl = set()
         for i, o in enumerate(outs):
+            if o[0] == "err" and "ast" in sess[i]:
+                failed_decl_next = declared_names(sess[i]["ast"])
+            else:
+                failed_decl_next = set()
             if o[0] in ("diverged", "undecided", "unsupported"):
                 st["diverged"] += 1
                 break
@@ -94,7 +134,7 @@ def check_session(checker, lines):
                             SEP.join(model_lines(mdl)), SEP.join(lines), role="session")
                 f.line = i
                 f.ok_idx = list(ok_idx)
-                findings.append(f)
+                findings.append(classify(f, lines, i, failed_decl))
                 break
             if o[0] == "rejected":
                 # the fresh program must be rejected as well, with the same kind
@@ -152,13 +192,49 @@ def check_session(checker, lines):
                     fd = Finding("session", "line %d: %s (original = growing program, variant = retained session)" % (i + 1, text),
                                  SEP.join(model_lines(eng.solver.model())), SEP.join(lines), role="session")
                     fd.line, fd.ok_idx = i, list(ok_idx)
-                    findings.append(fd)
+                    findings.append(classify(fd, lines, i, failed_decl))
                 elif r == z3.unknown:
                     st["undecided"] += 1
             if o[0] == "ok":
                 ok_idx.append(i)
+            failed_decl |= failed_decl_next
         if len(findings) > 6:
             break
+    for wl, exp in witnesses:
+        st["witnesses"] = st.get("witnesses", 0) + 1
+        try:
+            real = nat._batch(nat.bin, "session", [SEP.join(wl)], timeout=6)[0]
+        except Exception as e:
+            if any(x is None for x in exp):
+                continue  # the specification itself stopped (precondition violated / bound): reported above
+            f = Finding("session", "the real retained session crashes or hangs on a path witness (%s)" % str(e)[-80:], SEP.join(wl), SEP.join(lines), role="session")
+            f.line, f.ok_idx = 0, []
+            findings.append(f)
+            continue
+        for i, (r, e) in enumerate(zip(real, exp)):
+            if e is None:
+                break
+            if "result" in r:
+                no = native_outcome(r)
+                out = r.get("output", "")
+            else:
+                no = ("err", r["error"]["kind"])
+                out = ""
+            bad = None
+            if no[0] != e[0]:
+                bad = "real %r, specification %r" % (no[:2], e[:2])
+            elif no[0] == "ok" and differs(no[1], e[1]) is True:
+                bad = "real value %r, specification %r" % (no[1], e[1])
+            elif no[0] == "err" and no[1] != e[1]:
+                bad = "real error %s, specification %s" % (no[1], e[1])
+            elif out != e[2]:
+                bad = "real output %r, specification %r" % (out[:60], e[2][:60])
+            if bad:
+                f = Finding("session", "line %d of a path witness: the real retained session deviates from the machine specification: %s" % (i + 1, bad),
+                            SEP.join(wl), SEP.join(lines), role="session")
+                f.line, f.ok_idx = i, []
+                findings.append(f)
+                break
     st["queries"] += eng.queries
     st["solver_s"] += eng.solver_s
     st["programs"] += len(lines)
